@@ -508,4 +508,18 @@ theorem parseExZ_hsInv (lc : Libc) (t : Tok) (str : Bytes) (hwf : WF t) (hhs : H
     HsInv (parseExZ lc t str).tok := by
   rw [parseExZ_tok]; exact parseEx_hsInv lc t _ hwf hhs
 
+/-! ### non-vacuity -/
+
+/-- scratch garbage does not matter ... -/
+example : Eqv { stack := [freshLevel], maxDepth := 32, pb := [1, 2, 3], stPos := 7, isDouble := true, ucs := 99,
+                hs := 0, quote := 39, flags := 0 } (freshTok 32 0) :=
+  eqv_of_fresh rfl rfl rfl rfl rfl
+
+/-- ... but `hs` is not scratch (which is why `Eqv` equates it, `json_tokener_reset` clears it and the
+stream clause needs `HsInv`): a stale high surrogate changes what `"\uDC00"` parses to -/
+example :
+    (parseEx refLibc { freshTok 32 0 with hs := 0xD800 } [34, 92, 117, 68, 67, 48, 48, 34]).tok.pb = [0xF0, 0x90, 0x80, 0x80] ∧
+    (parseEx refLibc (freshTok 32 0) [34, 92, 117, 68, 67, 48, 48, 34]).tok.pb = [0xEF, 0xBF, 0xBD] := by
+  decide
+
 end JsonC.Tokener
